@@ -90,7 +90,11 @@ class NotifFamily(Family):
                                slow_notify=rng.choice([0.0, 0.0, 0.5, 5.0]),
                                p_fork=rng.choice([0.0, 0.1, 0.3]),
                                p_midflush=rng.choice([0.0, 0.3, 0.7]),
-                               h0=rng.choice([0, 5, 30]))])
+                               h0=rng.choice([0, 5, 30]),
+                               # start() is called by the session manager's own task: both reporters go on
+                               # reporting while its initialising notification is still in flight
+                               start_task=rng.random() < 0.7,
+                               slow_start=rng.choice([0.0, 1.0, 8.0, 20.0]))])
 
     def execute(self, case, chooser, trace=False, logs=False):
         op = case['plan'][0]
@@ -103,7 +107,7 @@ class NotifFamily(Family):
         oracle = NotifOracle()
         m = types.SimpleNamespace(D=op['h0'], B=op['h0'], F=op['h0'], R=None, P=None, M=None,
                                   touched=set(), advanced=False, busy=0, nid=0, started=False,
-                                  steps=0, stop=False)
+                                  steps=0, stop=False, start_done=False)
         viol = []
 
         def fresh(k):
@@ -116,7 +120,11 @@ class NotifFamily(Family):
         async def notify(h, touched):
             oracle.event('notify', h, touched)
             sim.log('notify', h, sorted(touched))
-            if op['slow_notify']:
+            if op.get('slow_start') and not m.start_done:
+                # the initialising call made by start(): the session manager reads the tip header from disk
+                m.start_done = True
+                await asyncio.sleep(ch.delay(0.0, op['slow_start']))
+            elif op['slow_notify']:
                 await asyncio.sleep(ch.delay(0.0, op['slow_notify']))
 
         def check_quiet():
@@ -190,7 +198,10 @@ class NotifFamily(Family):
                         # the session manager starts notifications after the first refresh
                         m.started = True
                         oracle.event('start', m.F, set())
-                        await call(n.start(m.F, notify))
+                        if op.get('start_task'):
+                            start_tasks.append(loop.create_task(call(n.start(m.F, notify))))
+                        else:
+                            await call(n.start(m.F, notify))
                     await asyncio.sleep(ch.delay(0.001, 5.0))
 
         async def daemon_task():
@@ -216,13 +227,15 @@ class NotifFamily(Family):
             await asyncio.sleep(60.0)
             m.stop = True
 
+        start_tasks = []
+
         async def main():
             tasks = [loop.create_task(bp_task()), loop.create_task(mp_task()),
                      loop.create_task(daemon_task())]
             await tasks[2]
-            for t in tasks[:2]:
+            for t in tasks[:2] + start_tasks:
                 t.cancel()
-            await asyncio.gather(*tasks[:2], return_exceptions=True)
+            await asyncio.gather(*tasks[:2], *start_tasks, return_exceptions=True)
 
         try:
             loop.run_until_complete(main())
